@@ -42,7 +42,9 @@ def make_configs(rng, thorough):
                     n = rng.choice([6, 12, 25, 40, 60] if not thorough else [6, 12, 25, 40, 60, 120, 200])
                     d = rng.choice([1, 2, 3, 5, 25])
                     if fam == "full":
-                        noise = ["ymean", "zero", "subjitter", "scalar", "vector", "given"][i % 6]
+                        # "ymean_factor": values are the mean AND a noise factor is supplied for the uncertainty (what the
+                        # estimators do after ADVI); the factor must not enter the mean
+                        noise = ["ymean", "zero", "subjitter", "scalar", "vector", "given", "ymean_factor"][i % 7]
                     elif fam == "dtc":
                         noise = ["ymean", "zero", "subjitter", "scalar"][i % 4]
                     else:
@@ -84,11 +86,12 @@ def build(cfg):
     mu = float(rng.normal())
     noise = cfg["noise"]
     sigma = {"ymean": 0.0, "zero": 0.0, "subjitter": 0.5 * np.sqrt(j), "scalar": float(rng.choice([0.05, 0.3, 1.5])),
-             "given": 0.0}.get(noise)
+             "given": 0.0, "ymean_factor": 0.0}.get(noise)
     if noise == "vector":
         sigma = np.abs(rng.normal(size=nb)) * 0.3
         sigma[:: 3] = 0.1 * np.sqrt(j)          # some entries below the jitter floor
-    y_is_mean = noise == "ymean"
+    y_is_mean = noise in ("ymean", "ymean_factor")
+    ycf = 0.4 * rng.normal(size=(nb, 3)) if noise == "ymean_factor" else None
     Lgiven = None
     K_bb = np.asarray(cov(xu, xu), dtype=float)
     if noise == "given":
@@ -96,7 +99,9 @@ def build(cfg):
         Lgiven = np.linalg.cholesky(K_bb + (j + 0.01) * np.eye(nb))
     cls = getattr(mc, CLASSES[(cfg["fam"], cfg["flavour"])])
     fam = cfg["fam"]
-    if fam == "full":
+    if fam == "full" and ycf is not None:
+        p = cls(x, vals, mu, cov, L=None, sigma=sigma, jitter=j, y_cov_factor=ycf, y_is_mean=True, with_uncertainty=True)
+    elif fam == "full":
         if cfg["via_dispatch"] and cfg["flavour"] == "plain":
             p = mi.compute_conditional(x, None, None, None, vals, mu, cov, None, Lgiven, sigma, jitter=j, y_is_mean=y_is_mean)
         elif cfg["via_dispatch"] and cfg["flavour"] == "time":
@@ -123,14 +128,14 @@ def build(cfg):
         if cfg["q"] > 2:
             Xq[0] = x[0]
     return dict(p=p, x=x, xu=xu, vals=vals, mu=mu, sigma=sigma, y_is_mean=y_is_mean, Lgiven=Lgiven, cov=cov,
-                kdesc=kdesc, Xq=Xq, m=m, nb=nb, K_bb=K_bb)
+                kdesc=kdesc, Xq=Xq, m=m, nb=nb, K_bb=K_bb, ycf=ycf)
 
 
 def stated_system(cfg, b):
     """(A, rhs, amplification, extra) of the theorem for this configuration; None for the latent family"""
     j, fam = cfg["jitter"], cfg["fam"]
     r = col2(b["vals"]) - b["mu"]
-    kind = {"ymean": "ymean", "zero": "scalar", "subjitter": "scalar", "scalar": "scalar", "vector": "vector"}.get(cfg["noise"])
+    kind = {"ymean": "ymean", "ymean_factor": "ymean", "zero": "scalar", "subjitter": "scalar", "scalar": "scalar", "vector": "vector"}.get(cfg["noise"])
     if fam == "full":
         if cfg["noise"] == "given":
             L = b["Lgiven"]
@@ -169,6 +174,10 @@ def model_terms(cfg, b, meta):
             args["L"] = b["Lgiven"]
         elif cfg["noise"] == "ymean":
             name = "FullCond_init_LN_sS_cN_yT_uF_weights"
+        elif cfg["noise"] == "ymean_factor":
+            name = "FullCond_init_LN_sS_cM_yT_uT_weights"
+            args["y_cov_factor"] = b["ycf"]
+            dims["k"] = b["ycf"].shape[1]
         elif cfg["noise"] == "vector":
             name = "FullCond_init_LN_sV_cN_yF_uF_weights"
         else:
@@ -303,7 +312,8 @@ def replay_of(cfg, b, extra):
     d = dict(cfg)
     d.update(kernel_desc=b["kdesc"], x=b["x"].tolist(), landmarks=None if cfg["fam"] == "full" else b["xu"].tolist(),
              values=np.asarray(b["vals"]).tolist(), mu=b["mu"], sigma=np.asarray(b["sigma"]).tolist(),
-             y_is_mean=b["y_is_mean"], Xnew=b["Xq"].tolist(), cls=CLASSES[(cfg["fam"], cfg["flavour"])])
+             y_is_mean=b["y_is_mean"], Xnew=b["Xq"].tolist(), cls=CLASSES[(cfg["fam"], cfg["flavour"])],
+             y_cov_factor=None if b.get("ycf") is None else b["ycf"].tolist(), with_uncertainty=b.get("ycf") is not None)
     d.update(extra)
     return d
 
@@ -362,7 +372,7 @@ def searcher(ctx, cfg, b, w_impl, pred_impl, rec):
         if b["Lgiven"] is not None:
             L = b["Lgiven"]
         else:
-            kind = {"ymean": "ymean", "zero": "scalar", "scalar": "scalar", "vector": "vector"}[cfg["noise"]]
+            kind = {"ymean": "ymean", "ymean_factor": "ymean", "zero": "scalar", "scalar": "scalar", "vector": "vector"}[cfg["noise"]]
             # symmetrised like the recorded argument (jnp.linalg.cholesky factorises (A + A^T)/2; Gram matrices are
             # symmetric only up to the cancellation error of |x|^2 + |y|^2 - 2xy)
             Astat = 0.5 * (b["K_bb"] + b["K_bb"].T) + noise_matrix(kind, b["sigma"], cfg["jitter"], b["m"])
@@ -468,7 +478,7 @@ def correspond(ctx, items, meta):
             bound = 8 * mm * U * (np.abs(L_m.T) @ np.abs(w_m)) + 1e-300
             ok = not (res > bound).any()
             if len(mats) > 2:
-                kind = {"ymean": "ymean", "zero": "scalar", "scalar": "scalar", "vector": "vector"}[cfg["noise"]]
+                kind = {"ymean": "ymean", "ymean_factor": "ymean", "zero": "scalar", "scalar": "scalar", "vector": "vector"}[cfg["noise"]]
                 Astat = b["K_bb"] + noise_matrix(kind, b["sigma"], cfg["jitter"], b["m"])
                 ok = ok and np.linalg.norm(L_m @ L_m.T - Astat) <= 2 * (mm + 1) * mm * U * np.linalg.norm(Astat)
                 # prediction agreement: perturbation of the Cholesky factor (Higham Thm 10.8) through K_* L^-T
